@@ -73,6 +73,9 @@ func storeAlphabet(o alphabetOpts) []storeOp {
 	}
 	if o.selfMerge {
 		ops = append(ops, opMergeSelf(0))
+		if o.proto {
+			ops = append(ops, opProtoSelf(0))
+		}
 	}
 	if o.copies {
 		ops = append(ops, opCopy(0, 1), opCopy(1, 0))
